@@ -539,6 +539,12 @@ func interpretContainerMethod(info *types.Info, fd *ast.FuncDecl, methods map[st
 								continue
 							}
 						}
+						// make([]*Iter, 0[, cap]): a fresh empty slice
+						if isIdentNamed(r.Fun, "make") && len(r.Args) >= 2 {
+							if bl, ok := r.Args[1].(*ast.BasicLit); ok && bl.Value == "0" {
+								continue
+							}
+						}
 						undecided = append(undecided, "unrecognised write to properties: "+xs(rhs))
 					case *ast.SliceExpr:
 						// truncation p = p[:len(p)-1]
